@@ -163,23 +163,24 @@ func ParseSection(b []byte, off int, tol Tolerate) (fields []Field, next int, er
 		end := nx
 		joined := false
 		for {
-			ce2, nx2, e2 := ReadLine(b, end, tol.BareLF, tol.ValueBytes)
-			if e2 != nil {
-				if e2.Class == Truncated {
-					// cannot know yet whether the field is continued
-					return fields, pos, e2
-				}
-				break // reported when that line is parsed
+			if end >= len(b) {
+				// cannot know yet whether the field is continued
+				return fields, pos, &Error{Truncated, len(b), "input ends after a field line"}
 			}
-			if ce2 == end || !isWS(b[end]) {
+			if !isWS(b[end]) {
 				break
 			}
+			// the next line is a continuation of this field
 			if !tol.ObsFold {
 				// name problems of the first line come first in byte order
 				if e := checkName(line, pos, tol); e != nil && e.Class != NoColon {
 					return fields, pos, e
 				}
 				return fields, pos, &Error{ObsFold, end, "obs-fold continuation line"}
+			}
+			ce2, nx2, e2 := ReadLine(b, end, tol.BareLF, tol.ValueBytes)
+			if e2 != nil {
+				return fields, pos, e2
 			}
 			if !joined {
 				logical = append([]byte{}, trimRightOWS(line)...)
